@@ -290,6 +290,12 @@ def lift_block(fb, it):
         raise WeaveError(f'{fb.path}: cannot locate the block to lift')
     end = toks[match_close(toks, k)].end
     block = text[start:end]
+    if 'match' in fb.opts:
+        # the lifted line is `PATTERN => match SCRUTINEE {`: the whole inner match expression is the function body
+        m3 = re.search(r'=>\s*(match\s+[^{]*)\{\s*$', line)
+        if not m3:
+            raise WeaveError(f'{fb.path}: lifted line is not `PATTERN => match X {{`: {line.strip()}')
+        block = '{ ' + m3.group(1) + block + ' }'
     skip = int(fb.opts.get('skip', 0))
     if skip:
         blines = block.split('\n')
@@ -299,6 +305,16 @@ def lift_block(fb, it):
                 raise WeaveError(f'{fb.path}: statement {j} of the lifted block is not an operand evaluation: '
                                  + (blines[j].strip() if j < len(blines) else '<eof>'))
             blines[j] = ''
+        block = '\n'.join(blines)
+    bind = fb.opts.get('bind')
+    if bind:
+        # R5c: the first statement of the block must be the single-line `let NAME = EXPR;` and is dropped: NAME is a parameter of
+        # the generated function (its defining expression stays outside the contract)
+        blines = block.split('\n')
+        if len(blines) < 2 or not re.match(r'^\s*let ' + re.escape(bind) + r' = [^;]*;\s*$', blines[1]):
+            raise WeaveError(f'{fb.path}: first statement of the lifted block is not `let {bind} = ..;`: '
+                             + (blines[1].strip() if len(blines) > 1 else '<eof>'))
+        blines[1] = ''
         block = '\n'.join(blines)
     params = ' '.join(' '.join(l.split()) for l, _ in fb.lift.get('params', []))
     ret = fb.lift.get('returns')
@@ -339,7 +355,7 @@ def weave_fn(sc, fb, reach=False):
     if fb.lift is not None:
         it, raw = lift_block(fb, it)
     rules = fb.opts.get('rules')
-    rules = rules.split(',') if rules else ['R0', 'R1', 'R7', 'R8', 'R2', 'R3', 'R9', 'R10']
+    rules = rules.split(',') if rules else ['R0', 'R1', 'R7', 'R8', 'R2', 'R3', 'R9', 'R10', 'R11']
     counts = {}
     try:
         # phase A: line-preserving token rewrites
@@ -410,7 +426,7 @@ def weave_fn(sc, fb, reach=False):
             text, origin = apply_inserts(text, origin, inserts)
             # phase C: loop desugarings (line preserving)
             before = text.count('\n')
-            text, c = desugar(text, [r for r in rules if r in ('R2', 'R3', 'R9', 'R10')])
+            text, c = desugar(text, [r for r in rules if r in ('R2', 'R3', 'R9', 'R10', 'R11')])
             counts.update(c)
             if text.count('\n') != before:
                 raise WeaveError(f'internal: desugaring changed the line count of {fb.path}')
